@@ -16,7 +16,7 @@ def make(case):
     shape = tuple(case["shape"])
     k = case["dkind"]
     if k == "const":
-        x = np.full(shape, 7.0)
+        x = np.full(shape, case.get("cval", 7.0))
     elif k == "ties":
         x = rng.integers(0, 4, size=shape).astype(np.float64)
     elif k == "outliers":
@@ -33,11 +33,11 @@ def make(case):
         x = rng.integers(-64, 65, size=shape).astype(np.float64) / 4.0
     if k == "lane-const" and x.ndim == 2:
         # one lane (first, last or a middle one, along either axis) exactly constant, the others random
-        lane = {0: 0, 1: -1, 2: x.shape[0] // 2}[int(rng.integers(0, 3))]
+        which = int(rng.integers(0, 3))
         if int(rng.integers(0, 2)):
-            x[lane, :] = 5.0
+            x[{0: 0, 1: -1, 2: x.shape[0] // 2}[which], :] = case.get("cval", 5.0)
         else:
-            x[:, lane] = 5.0
+            x[:, {0: 0, 1: -1, 2: x.shape[1] // 2}[which]] = case.get("cval", 5.0)
     return x
 
 
@@ -76,6 +76,14 @@ class C15(Prop):
                     c2 = self._case(rng, "axis")
                     c2.update(scale=sc, axis=ax, shape=[9, 10], dkind="lane-const")
                     cases.append(c2)
+        # exactly constant lanes whose constant does not sum exactly (3.7, 0.1) and that are long enough for a sum to
+        # round: nothing may come out NaN / infinite, for any estimator
+        for sc in SCALES:
+            for shape, dk in (([50], "const"), ([3, 100], "lane-const"), ([77, 4], "lane-const"), ([6, 45], "const")):
+                c = self._case(rng, "zscore-affine")
+                c.update(scale=sc, loc=rng.choice(("mean", "median")), shape=shape, dkind=dk, cval=rng.choice((3.7, 0.1, 1234.567)),
+                         axis=rng.choice(("None", 0)) if len(shape) == 1 else (1 if shape[1] > shape[0] else 0))   # long lanes
+                cases.append(c)
         # arrays well above a few thousand elements with SHORT lanes (a block of many channels): per-axis results must
         # still be the per-lane results, whatever the total size
         for sc in SCALES:
